@@ -399,6 +399,72 @@ _append_case = st.fixed_dictionaries(
 )
 
 
+# ---- part "pipeline": every reply delivered to the farm is recorded once
+
+
+def exec_pipeline(case):
+    '''generated engine x history on the real schedule+farm; the journal files
+    (read with plain json) must hold exactly one entry per delivered reply'''
+    from .. import sim
+
+    delivered = []  # (task, target, runid, outcome)
+    state = {'root': None}
+
+    def on_event(s, ev, out):
+        state['root'] = s.root
+        if ev['op'][0] != 'rep' or 'unit' not in ev:
+            return
+        u = ev['unit']
+        rec = (u.jobid, u.target, u.runid, ev['outcome'])
+        disk = sorted(
+            (e['task'], e['target'], e['runid'], e['status'])
+            for _d, _f, e in _read_journals(s.root)
+        )
+        want = sorted(delivered + [rec])
+        if disk != want:
+            site = ''
+            if u.key in s.lost_keys and not ev['job_queued']:
+                # known finding: see known_findings.json
+                site = '@doing-cleared-by-upstream-purge'
+            missing = [k for k in want if disk.count(k) < want.count(k)]
+            extra = [k for k in disk if disk.count(k) > want.count(k)]
+            out.fail(
+                'pipeline/reply-not-recorded-once' + site,
+                f'reply {rec}: journal missing={missing[:2]} '
+                f'extra={extra[:2]} errors={ev["errors"]}',
+            )
+            # keep comparing later replies against what the journal holds
+            if disk.count(rec):
+                delivered.append(rec)
+        else:
+            delivered.append(rec)
+        if len(delivered) >= 3:
+            out.nontrivial = True
+        if ev['outcome'] != 'success':
+            out.label('non-success-reply')
+
+    def at_end(s, out):
+        s.clock.advance(1)  # the window is open: completed < now
+        res = s.chron.find(limit=1000, succeeded=True) + s.chron.find(
+            limit=1000, succeeded=False
+        )
+        got = sorted((e['task'], e['target'], e['runid'], e['status'])
+                     for e in res)
+        # find(succeeded=False) returns failures only; invalid is neither
+        want = sorted(d for d in delivered if d[3] != 'invalid')
+        if got != want:
+            out.fail('pipeline/find-differs-from-delivered',
+                     f'find: {len(got)} entries, delivered {len(want)}')
+
+    return sim.run_history(case, on_event, at_end, pid=ID)
+
+
+def _pipeline_strategy():
+    from .. import sim
+
+    return sim.histories(weights={'rereq': 2, 'requp': 2}, max_ops=40)
+
+
 def parts(tier):
     q = tier == 'quick'
     return [
@@ -408,4 +474,6 @@ def parts(tier):
                   cases=400 if q else 6000, batch=200),
         core.Part('complete', exec_complete, strategy=_complete_case,
                   cases=400 if q else 6000, batch=200),
+        core.Part('pipeline', exec_pipeline, strategy=_pipeline_strategy,
+                  cases=800 if q else 20000, batch=200),
     ]
